@@ -29,7 +29,7 @@ fn tuple_cmp(d1: i64, i1: i64, d2: i64, i2: i64) -> std::cmp::Ordering {
 }
 
 tx_harness! {
-    #[kani::unwind(4)]
+    #[kani::unwind(5)]
     fn c07_tx_ord_is_date_then_index() {
         // settlement days over a year boundary: 2019-12-30 .. 2020-01-03 as day numbers 0..4
         let d1 = any_in(0, 4); let d2 = any_in(0, 4);
